@@ -64,6 +64,7 @@ uint64_t sim_machine_time_stamp(void);
 int   sim_spin_knob(int dflt);
 void  sim_probe(const char* name);
 unsigned sim_random_salt(void);
+void  sim_allotment(int, int, int, int, const int*, const int*, const int*, const int*);
 void  sim_tso_region(const void* p, size_t n, int on);
 }
 
